@@ -36,6 +36,7 @@ def errOfCause : AaveRisk.Cause → Err
   | .overBalance => .exceedBalance
   | .hfLowAfter => .hfLow
   | .notSupplied => .keySupply
+  | .cannotCollateral => .cannotCollateral
   | .arith => .divZero
 
 /-- the exception classes agree (`Cause.exc` is what the harness compares with the implementation) -/
